@@ -73,6 +73,10 @@ func templates() []template {
 			[]fragDef{{"UF", "User", []*node{f("name", 2), f("id", -1)}}}, 3},
 		{"union-typename-one-site-rev", []*node{f("thing(i: 0)", -1, sp("UF", 1)), f("things", -1, f("__typename", -1), sp("UF", 0), on("Item", -1, f("id", -1)))},
 			[]fragDef{{"UF", "User", []*node{f("name", 2), f("id", -1)}}}, 3},
+		// __typename carrying the directives itself: under an object, aliased in a nested object, directly on a union and in a member fragment
+		{"typename-directives", []*node{f("users", -1, f("id", -1), f("__typename", 0), f("friend", -1, f("t: __typename", 1), f("id", -1))), f("things", -1, f("__typename", 2), on("User", -1, f("id", -1)))}, nil, 3},
+		{"typename-directives-in-fragments", []*node{f("things", -1, on("User", -1, f("id", -1), f("k: __typename", 0)), on("Item", -1, f("__typename", 1), f("id", -1))), f("users", -1, sp("T", -1))},
+			[]fragDef{{"T", "User", []*node{f("__typename", 2), f("name", -1)}}}, 3},
 		{"args-and-alias", []*node{f("u: user(id: 2)", 0, f("n: name", 1), f("id", -1)), f("c: count", 2), f("count", -1)}, nil, 3},
 		{"fav-union-nested", []*node{f("users", -1, f("id", -1), f("fav", 0, f("__typename", -1), on("Item", 1, f("name", -1)), on("User", 2, f("name", -1))))}, nil, 3},
 	}
